@@ -187,18 +187,8 @@ func historyFree(info *types.Info, vm *eng.VMModel, f *types.Var, v ast.Expr) (b
 	return true, "value independent of earlier runs: " + eng.ExprStr(v)
 }
 
-func runC07(p *core.Program, r *core.Report) {
-	r.Explanation = "Decides the re-initialisation discipline that makes a run a function of (program, environment, budget) only: the set of VM fields that any *VM method assigns is computed; for each, every path through (*VM).Run from its entry to the dispatch loop assigns the field (or crosses the false edge of `field != nil`), and the assigned value mentions no VM state except as a zero-length reslice of the field itself. Together with the no-shared-write rules of C08 this is the complete argument under the stated assumptions."
-	r.NotDecided = []string{"state hidden in the debug channels of vm.Debug() (Run closes them: such VMs are single-use by construction)", "effects of environment functions"}
-	vm, msg := eng.BuildVMModel(p)
-	if vm == nil {
-		r.Unk("R7.1", "vm model", "", msg)
-		return
-	}
-	info := p.Pkg("vm").TypesInfo
-	// prologue: the statements of Run before the dispatch loop
-	var loop ast.Stmt
-	var prologue []ast.Stmt
+// vmPrologue: the statements of Run before the dispatch loop, and the loop statement.
+func vmPrologue(vm *eng.VMModel) (prologue []ast.Stmt, loop ast.Stmt) {
 	for _, st := range vm.Run.Body.List {
 		contains := false
 		ast.Inspect(st, func(n ast.Node) bool {
@@ -208,11 +198,23 @@ func runC07(p *core.Program, r *core.Report) {
 			return true
 		})
 		if contains {
-			loop = st
-			break
+			return prologue, st
 		}
 		prologue = append(prologue, st)
 	}
+	return prologue, nil
+}
+
+func runC07(p *core.Program, r *core.Report) {
+	r.Explanation = "Decides the re-initialisation discipline that makes a run a function of (program, environment, budget) only: the set of VM fields that any *VM method assigns is computed; for each, every path through (*VM).Run from its entry to the dispatch loop assigns the field (or crosses the false edge of `field != nil`), and the assigned value mentions no VM state except as a zero-length reslice of the field itself. Together with the no-shared-write rules of C08 this is the complete argument under the stated assumptions."
+	r.NotDecided = []string{"state hidden in the debug channels of vm.Debug() (Run closes them: such VMs are single-use by construction)", "effects of environment functions"}
+	vm, msg := eng.BuildVMModel(p)
+	if vm == nil {
+		r.Unk("R7.1", "vm model", "", msg)
+		return
+	}
+	info := p.Pkg("vm").TypesInfo
+	prologue, loop := vmPrologue(vm)
 	if loop == nil {
 		r.Unk("R7.2", "vm.(VM).Run/dispatch loop", p.Pos(vm.Run.Pos()), "the dispatch loop is not a top-level statement of Run")
 		return
